@@ -999,6 +999,7 @@ def run(ctx: Ctx) -> None:
 
 # ---------------------------------------------------------------------------
 WITNESSES = [
+    {"name": "seeded-C04-11", "file": "algos/optimization_problem.py", "old": "            group = get_hdf5_group(h5file, problem._OPT_DESCR_GROUP)\n            for attr_name, attr in group.items():\n                val = attr[()]\n                if isinstance(val, ndarray) and isinstance(val[0], bytes_):\n                    val = val[0].decode()\n\n                if attr_name == \"ineq_tolerance\":\n                    problem.tolerances.inequality = val\n                    continue\n\n                if attr_name == \"eq_tolerance\":\n                    problem.tolerances.equality = val\n                    continue\n\n                if attr_name == \"minimize_objective\":\n                    attr_name = \"_OptimizationProblem__minimize_objective\"\n\n                if attr_name == \"is_linear\":\n                    attr_name = \"_OptimizationProblem__is_linear\"\n\n                if attr_name == \"pb_type\":\n                    attr_name = \"_OptimizationProblem__is_linear\"\n                    val = val == \"linear\"\n\n                setattr(problem, attr_name, val)\n\n", "new": "            group = get_hdf5_group(h5file, problem._OPT_DESCR_GROUP)\n            tolerances = {}\n            for attr_name, attr in group.items():\n                val = attr[()]\n                if isinstance(val, ndarray) and isinstance(val[0], bytes_):\n                    val = val[0].decode()\n\n                if attr_name == \"ineq_tolerance\":\n                    tolerances[\"inequality\"] = val\n                    continue\n\n                if attr_name == \"eq_tolerance\":\n                    tolerances[\"equality\"] = val\n                    continue\n\n                if attr_name == \"minimize_objective\":\n                    attr_name = \"_OptimizationProblem__minimize_objective\"\n\n                if attr_name == \"is_linear\":\n                    attr_name = \"_OptimizationProblem__is_linear\"\n\n                if attr_name == \"pb_type\":\n                    attr_name = \"_OptimizationProblem__is_linear\"\n                    val = val == \"linear\"\n\n                setattr(problem, attr_name, val)\n\n            # Validate the tolerances read from the file.\n            problem.__tolerances = ConstraintTolerances(**tolerances)\n\n", "expect": "4.8", "note": "OptimizationProblem.from_hdf rebinds problem.tolerances to a new ConstraintToler"},
     {"name": "reload-binds-new-tolerances", "file": "algos/optimization_problem.py", "old": "        self.__tolerances = ConstraintTolerances()\n", "new": "        self.__tolerances = ConstraintTolerances()\n        self.__tolerances = ConstraintTolerances()\n", "expect": "4.8"},
     {"name": "constraints-get-their-own-tolerances", "file": "algos/optimization_problem.py", "old": "        self.__constraints = Constraints(design_space, self.tolerances)", "new": "        self.__constraints = Constraints(design_space, ConstraintTolerances())", "expect": "4.8"},
     {"name": "seeded-C04-10", "file": "algos/pareto/pareto_front.py", "old": "        feasibility = zeros(n_iter)\n\n        for iteration, item in enumerate(problem.database.items()):\n            x_vect, out_val = item\n            dv_history[iteration] = x_vect.unwrap()\n            if problem.objective.name in out_val:\n                obj_history[iteration] = array(out_val[problem.objective.name])\n                feasibility[iteration] = problem.constraints.is_point_feasible(out_val)\n", "new": "        feasibility = zeros(n_iter)\n        # Report the objectives with their original sign when requested.\n        if problem.minimize_objective or problem.use_standardized_objective:\n            sign = 1.0\n        else:\n            sign = -1.0\n\n        for iteration, item in enumerate(problem.database.items()):\n            x_vect, out_val = item\n            dv_history[iteration] = x_vect.unwrap()\n            if problem.objective.name in out_val:\n                obj_history[iteration] = sign * array(out_val[problem.objective.name])\n                feasibility[iteration] = problem.constraints.is_point_feasible(out_val)\n", "expect": "4.7", "note": "ParetoFront restores the original objective sign before the non-dominated filter"},
